@@ -6,13 +6,21 @@ package codon
 // the 64 codons, start and stop sets); sums, per-amino-acid usage shares and
 // means are computed here from the argument values. The +-1 the property allows
 // on the 10000-scale is applied (a) to an integer rounding of the mean and
-// (b) to the cut-off decision when a share lies within 1 of the cut-off.
+// (b) to the cut-off decision when a share lies within 1 of the cut-off AND
+// rounding can matter. Rounding cannot matter when both the share and the
+// cut-off are exact whole numbers on the 10000-scale that any arithmetic
+// computes exactly (c18Sharp, c18WholeCut): an unused codon (share exactly 0),
+// the only used codon of its amino acid (share exactly 10000), or a share
+// w/total that is a dyadic fraction with a whole 10000-fold; and a cut-off whose
+// exact 10000-fold is a whole number (0, -0, 0.25, 0.5, 1, ...). For these the
+// decision "below the cut-off" is taken exactly: share 0 is not below cut-off 0.
 // All tables are deep copies re-weighted with OptimizeTable, so the backing
 // arrays shared between GetCodonTable results (C08) play no role here.
 
 import (
 	"fmt"
 	"math"
+	"math/big"
 	"sort"
 	"strings"
 	"testing"
@@ -133,6 +141,127 @@ func (v c18V) shares() (s [64]float64) {
 	return s
 }
 
+// c18Sharp: is the share of a codon with weight w among synonyms totalling tot
+// an exact whole number on the 10000-scale whichever way it is computed
+// (w/tot*10000, 10000*w/tot, in floating point or in integers)?
+func c18Sharp(w, tot int) bool {
+	if w == 0 || w == tot {
+		return true
+	}
+	if w < 0 || tot <= 0 || (10000*w)%tot != 0 {
+		return false
+	}
+	g, x := w, tot
+	for x != 0 {
+		g, x = x, g%x
+	}
+	den := tot / g
+	return den&(den-1) == 0 // w/tot is a dyadic fraction: the division is exact in binary floating point
+}
+
+// c18WholeCut: is the exact product 10000 x cut (cut taken as the real number
+// the float64 denotes) a whole number? Then no rounding of the cut-off occurs.
+func c18WholeCut(cut float64) bool {
+	p := new(big.Float).SetPrec(200).SetFloat64(cut)
+	p.Mul(p, big.NewFloat(10000))
+	return p.IsInt()
+}
+
+// c18Decide: what the property demands of a codon with shares s1, s2 (weights
+// w1, w2 among totals t1, t2) at cut-off c on the 10000-scale:
+// -1 = must be zero, +1 = must be the mean, 0 = either (rounding may decide).
+func c18Decide(s1, s2 float64, w1, t1, w2, t2 int, c float64, wholeCut bool) int {
+	// per share: -1 certainly below, +1 certainly not below, 0 undecided
+	one := func(s float64, w, tot int) int {
+		switch {
+		case wholeCut && c18Sharp(w, tot):
+			if s < c {
+				return -1
+			}
+			return 1
+		case s < c-1.000001:
+			return -1
+		case s >= c+1.000001:
+			return 1
+		}
+		return 0
+	}
+	d1, d2 := one(s1, w1, t1), one(s2, w2, t2)
+	switch {
+	case d1 < 0 || d2 < 0:
+		return -1
+	case d1 > 0 && d2 > 0:
+		return 1
+	}
+	return 0
+}
+
+// c18SplitSequence: like c18CodingSequence, but no codon of avoid is used and
+// every codon of include is used at least once. With avoid and include swapped
+// for the second table of a pair, the pair has codons unused in exactly one of
+// its two tables. avoid never holds all the synonyms of an amino acid.
+func c18SplitSequence(rng *c18Rand, t Table, residues int, avoid map[string]bool, include []string) string {
+	bias := []int{0, 0, 1, 1, 2, 5, 10, 30}
+	type pick struct {
+		triplets []string
+		cum      []int
+	}
+	inc := map[string]bool{}
+	for _, x := range include {
+		inc[x] = true
+	}
+	var picks []pick
+	for _, aa := range t.AminoAcids {
+		var p pick
+		total := 0
+		for _, c := range aa.Codons {
+			b := bias[rng.Intn(len(bias))]
+			if avoid[c.Triplet] {
+				b = 0
+			} else if inc[c.Triplet] && b == 0 {
+				b = 1
+			}
+			total += b
+			p.triplets = append(p.triplets, c.Triplet)
+			p.cum = append(p.cum, total)
+		}
+		if total == 0 {
+			// give all the weight to one codon that is not avoided
+			var free []int
+			for j, tr := range p.triplets {
+				if !avoid[tr] {
+					free = append(free, j)
+				}
+			}
+			k := free[rng.Intn(len(free))]
+			for j := k; j < len(p.cum); j++ {
+				p.cum[j] = 1
+			}
+		}
+		picks = append(picks, p)
+	}
+	var sb strings.Builder
+	emit := func(p pick) {
+		r := rng.Intn(p.cum[len(p.cum)-1])
+		for j, c := range p.cum {
+			if r < c {
+				sb.WriteString(p.triplets[j])
+				return
+			}
+		}
+	}
+	for _, x := range include {
+		sb.WriteString(x)
+	}
+	for _, p := range picks {
+		emit(p)
+	}
+	for i := len(picks) + len(include); i < residues; i++ {
+		emit(picks[rng.Intn(len(picks))])
+	}
+	return sb.String()
+}
+
 // c18CodingSequence: random coding sequence for t with every amino acid
 // present and a random codon bias (unused, rare and frequent synonyms).
 func c18CodingSequence(rng *c18Rand, t Table, residues int) string {
@@ -189,6 +318,19 @@ type c18Pair struct {
 	name   string
 	a, b   Table
 	va, vb c18V
+}
+
+// oneSided: number of codons unused (weight 0) in exactly one of the two tables.
+func (p *c18Pair) oneSided() (onlyA, onlyB int) {
+	for i := 0; i < 64; i++ {
+		switch {
+		case p.va.w[i] == 0 && p.vb.w[i] > 0:
+			onlyA++
+		case p.vb.w[i] == 0 && p.va.w[i] > 0:
+			onlyB++
+		}
+	}
+	return
 }
 
 func TestVerifC18(t *testing.T) {
@@ -248,8 +390,50 @@ func TestVerifC18(t *testing.T) {
 		add("code 1 with a copy of itself", a, c18Copy(a))
 	}
 
+	// pairs with codons unused in exactly one of the two tables, by construction:
+	// for every amino acid with two or more codons, one synonym is left out of
+	// the first table's coding sequence and used in the second's, and another
+	// the other way round (every amino acid still occurs in both). Their own
+	// random stream, so that the pairs above stay what they were.
+	splitPerCode := 1
+	if thorough {
+		splitPerCode = 12
+	}
+	{
+		rng2 := newC18Rand(verifSeed() ^ 0x1818)
+		for _, id := range c18Ids {
+			for k := 0; k < splitPerCode; k++ {
+				base := c18Copy(GetCodonTable(id))
+				sort.Slice(base.AminoAcids, func(i, j int) bool { return base.AminoAcids[i].Letter < base.AminoAcids[j].Letter })
+				notInA, notInB := map[string]bool{}, map[string]bool{}
+				var listA, listB []string
+				for _, aa := range base.AminoAcids {
+					if len(aa.Codons) < 2 || rng2.Intn(4) == 0 {
+						continue
+					}
+					x := rng2.Intn(len(aa.Codons))
+					y := (x + 1 + rng2.Intn(len(aa.Codons)-1)) % len(aa.Codons)
+					notInA[aa.Codons[x].Triplet], notInB[aa.Codons[y].Triplet] = true, true
+					listA, listB = append(listA, aa.Codons[x].Triplet), append(listB, aa.Codons[y].Triplet)
+				}
+				size := []int{100, 300, 1000, 5000}[rng2.Intn(4)]
+				a := base.OptimizeTable(c18SplitSequence(rng2, base, size, notInA, listB))
+				base2 := c18Copy(base)
+				b := base2.OptimizeTable(c18SplitSequence(rng2, base2, size, notInB, listA))
+				if k%2 == 1 {
+					b = c18Shuffled(rng2, b)
+				}
+				add(fmt.Sprintf("code %d split pair %d", id, k), a, b)
+				p := &pairs[len(pairs)-1]
+				if onlyA, onlyB := p.oneSided(); onlyA < len(listA) || onlyB < len(listB) || onlyA == 0 || onlyB == 0 {
+					t.Fatalf("harness: %s: %d/%d codons unused in one table only, wanted at least %d/%d", p.name, onlyA, onlyB, len(listA), len(listB))
+				}
+			}
+		}
+	}
+
 	vSum := newVerifRun("C18", "transform/codon.AddCodonTable/post/sum",
-		fmt.Sprintf("%d pairs of deep-copied tables per code (all 25 codes) re-weighted with OptimizeTable from random coding sequences of 64..30000 codons in which every amino acid occurs (random bias, unused synonyms), every second pair with the second table's amino acids and codons in another order, plus pairs 1/11, 11/1, 27/28, 28/27 (same assignment, different start/stop lists) and a table with itself; both argument orders; each codon's weight = sum of its two weights; non-trivial = every case", pairsPerCode))
+		fmt.Sprintf("%d pairs of deep-copied tables per code (all 25 codes) re-weighted with OptimizeTable from random coding sequences of 64..30000 codons in which every amino acid occurs (random bias, unused synonyms), every second pair with the second table's amino acids and codons in another order, plus pairs 1/11, 11/1, 27/28, 28/27 (same assignment, different start/stop lists) and a table with itself, plus %d 'split' pair(s) per code in which, for most amino acids with two or more codons, one synonym is unused (weight 0) in the first table only and another in the second table only (every amino acid still occurs in both); both argument orders; each codon's weight = sum of its two weights; non-trivial = every case", pairsPerCode, splitPerCode))
 	vSum.Sampled()
 	vSkA := newVerifRun("C18", "transform/codon.AddCodonTable/post/skeleton",
 		"same pairs, both argument orders: the sum lists each of the 64 codons once under the letter the FIRST table gives it, and its start and stop codon sets are the first table's; non-trivial = pairs whose start/stop lists differ")
@@ -258,10 +442,11 @@ func TestVerifC18(t *testing.T) {
 		"same pairs, both argument orders, every accepted cut-off: the compromise lists each of the 64 codons once under the letter the FIRST table gives it, and its start and stop codon sets are the first table's; non-trivial = pairs whose start/stop lists differ")
 	vSk.Sampled()
 	vMean := newVerifRun("C18", "transform/codon.CompromiseCodonTable/post/mean-share",
-		"same pairs x cut-offs {0, -0 , 5e-324, 1e-4, 0.05, 0.1, 0.25, 1/3, 0.5, 0.9, nextbefore(1), 1} and, per pair, 12 realised usage shares of either table with their two float64 neighbours; with s1, s2 the codon's shares (w / total of its amino acid, x 10000, real numbers) and c = 10000 x cut-off: weight must be 0 if s1 < c-1 or s2 < c-1; within [floor(m)-1, ceil(m)+1] for m = (s1+s2)/2 if both >= c+1; either of the two when a share is within 1 of c; non-trivial = cut-off > 0")
+		"same pairs x cut-offs {0, -0 , 5e-324, 1e-4, 0.05, 0.1, 0.25, 1/3, 0.5, 0.9, nextbefore(1), 1} and, per pair, 12 realised usage shares of either table with their two float64 neighbours; with s1, s2 the codon's shares (w / total of its amino acid, x 10000, real numbers) and c = 10000 x cut-off: weight must be 0 if s1 < c-1 or s2 < c-1; within [floor(m)-1, ceil(m)+1] for m = (s1+s2)/2 if both >= c+1; either of the two when a share is within 1 of c AND rounding can matter. "+
+			"Rounding cannot matter, and the share is compared with c exactly (below iff s < c), when 10000 x cut-off is a whole number (cut-offs 0, -0, 0.25, 0.5, 1, ...) and the share is an exact whole number however computed: weight 0 (share exactly 0), weight = the amino acid's total (share exactly 10000), or w/total a dyadic fraction with a whole 10000-fold. In particular at cut-off 0 or -0 a codon unused in ONE table (share 0, not below 0) with share s in the other must get the mean s/2 (+-1), not zero, in both argument orders, and at cut-off 1 the only codon of an amino acid keeps 10000; non-trivial = cut-off > 0, or the pair has a codon unused in exactly one table")
 	vMean.Sampled()
 	vSym := newVerifRun("C18", "transform/codon.CompromiseCodonTable/post/symmetric",
-		"same pairs and cut-offs: Compromise(a,b,c) and Compromise(b,a,c) give every codon weights that differ by at most 1, except that when a share is within 1 of the cut-off (10000-scale) one may be 0 and the other the mean; non-trivial = the two tables differ")
+		"same pairs and cut-offs: Compromise(a,b,c) and Compromise(b,a,c) give every codon weights that differ by at most 1, except that when a share is within 1 of the cut-off (10000-scale) and rounding can matter (the either-case of the mean-share clause: not for exact shares such as 0 or 10000 against a whole cut-off such as 0 or 1) one may be 0 and the other the mean; non-trivial = the two tables differ")
 	vSym.Sampled()
 	vRej := newVerifRun("C18", "transform/codon.CompromiseCodonTable/post/reject-cutoff",
 		"same pairs x cut-offs {-1, -0.5, -1e-9, -5e-324, -0, 0, 5e-324, 0.1, 0.5, nextbefore(1), 1, nextafter(1), 1.000001, 1.5, 2} plus the realised-share cut-offs: error iff cut-off < 0 or > 1; non-trivial = every case")
@@ -358,6 +543,14 @@ func TestVerifC18(t *testing.T) {
 				continue
 			}
 			c := 10000 * cut
+			wholeCut := c18WholeCut(cut)
+			ta, tb := p.va.totals(), p.vb.totals()
+			onlyA, onlyB := p.oneSided()
+			var decide [64]int // the same for both argument orders
+			for i := 0; i < 64; i++ {
+				l := p.va.letter[i]
+				decide[i] = c18Decide(sa[i], sb[i], p.va.w[i], ta[l], p.vb.w[i], tb[l], c, wholeCut)
+			}
 			var gots [2]c18V
 			valid := true
 			for dir := 0; dir < 2; dir++ {
@@ -366,7 +559,7 @@ func TestVerifC18(t *testing.T) {
 					va, vb, s1, s2 = p.vb, p.va, sb, sa
 				}
 				in := fmt.Sprintf("CompromiseCodonTable, %s, order %d, cut-off %v; first=%s; second=%s", p.name, dir, cut, c18Describe(va), c18Describe(vb))
-				vMean.Case(fmt.Sprintf("%s/%d/%v", p.name, dir, cut), cut > 0)
+				vMean.Case(fmt.Sprintf("%s/%d/%v", p.name, dir, cut), cut > 0 || onlyA+onlyB > 0)
 				vSk.Case(fmt.Sprintf("compromise/%s/%d/%v", p.name, dir, cut), va.starts != vb.starts || va.stops != vb.stops)
 				got, problem := c18Norm(res[dir])
 				if problem != "" {
@@ -386,12 +579,14 @@ func TestVerifC18(t *testing.T) {
 					g := float64(got.w[i])
 					meanOK := g >= math.Floor(m-1e-9)-1 && g <= math.Ceil(m+1e-9)+1
 					zeroOK := got.w[i] == 0
-					below := s1[i] < c-1.000001 || s2[i] < c-1.000001
-					above := s1[i] >= c+1.000001 && s2[i] >= c+1.000001
+					below, above := decide[i] < 0, decide[i] > 0
 					detail := fmt.Sprintf("%s (%c): shares %.3f and %.3f, cut-off %.3f on the 10000-scale, weight %d", c18Triplet(i), va.letter[i], s1[i], s2[i], c, got.w[i])
 					switch {
 					case below && !zeroOK:
 						vMean.Fail("not-zero-below-cutoff", in, detail)
+					case above && !meanOK && got.w[i] == 0 && (va.w[i] == 0) != (vb.w[i] == 0) && c == 0:
+						// cut-off 0: a codon unused in one table only is not below the cut-off
+						vMean.Fail("zero-share-treated-as-below-zero-cutoff", in, detail+fmt.Sprintf(", mean %.3f", m))
 					case above && !meanOK:
 						vMean.Fail("not-the-mean", in, detail+fmt.Sprintf(", mean %.3f", m))
 					case !below && !above && !zeroOK && !meanOK:
@@ -408,8 +603,7 @@ func TestVerifC18(t *testing.T) {
 			for i := 0; i < 64; i++ {
 				d := gots[0].w[i] - gots[1].w[i]
 				if d < -1 || d > 1 {
-					near := math.Abs(sa[i]-c) <= 1.000001 || math.Abs(sb[i]-c) <= 1.000001
-					if near && (gots[0].w[i] == 0 || gots[1].w[i] == 0) {
+					if decide[i] == 0 && (gots[0].w[i] == 0 || gots[1].w[i] == 0) {
 						continue
 					}
 					vSym.Fail("asymmetric", inS, fmt.Sprintf("%s: %d one way, %d the other", c18Triplet(i), gots[0].w[i], gots[1].w[i]))
